@@ -11,6 +11,14 @@ pub uninterp spec fn fs_openable(path: Seq<char>) -> bool;      // File::open su
 pub uninterp spec fn via_symlink(path: Seq<char>) -> bool;
 pub uninterp spec fn fs_is_symlink(path: Seq<char>) -> bool;   // the path itself is a symbolic link (lstat)      // the resolution of a symbolic link that itself lies under the root
 
+// ASSUMED (POSIX): the path of a regular file is not empty and does not end in '/' (stat("file/") fails with ENOTDIR)
+#[verifier::external_body]
+pub proof fn axiom_file_path(f: Seq<char>)
+    requires fs_is_file(f),
+    ensures f.len() > 0, f.last() != '/',
+{
+}
+
 pub open spec fn is_sep(c: char) -> bool { c == '/' || c == '\\' }
 
 // a ".." path segment starting at index i
